@@ -41,10 +41,37 @@ let read_module (args : string list) : module_ast =
   let num () = cz_of_string (next ()) in
   let nat () = int_of_string (next ()) in
   let rec times n f = if n <= 0 then [] else let x = f () in x :: times (n - 1) f in
-  let endpoint_lo () = match next () with "m" -> EMin | "M" -> EMax | s -> EInt (cz_of_string s) in
+  let bits_of s = List.init (Stdlib.String.length s) (fun i -> s.[i] = '1') in
+  let unhex s = if s = "-" then "" else Stdlib.String.init (Stdlib.String.length s / 2) (fun i -> Char.chr (int_of_string ("0x" ^ Stdlib.String.sub s (2 * i) 2))) in
+  let vref_of = function
+    | "1" -> VR1 (str_of_native (next ()))
+    | "2" -> let m = str_of_native (next ()) in VR2 (m, str_of_native (next ()))
+    | s -> raise (Bad ("vref " ^ s)) in
+  (* value: vi <z> | vn | vt | vf | vb <01..> | vs <hex|-> | vr <0|1> <ip> <fp> | v1 <id> | v2 <mod> <id> *)
+  let value_of = function
+    | "vi" -> VInt (num ())
+    | "vn" -> VNull
+    | "vt" -> VBool true
+    | "vf" -> VBool false
+    | "vb" -> VBits (bits_of (next ()))
+    | "vs" -> VStr (str_of_native (unhex (next ())))
+    | "vr" -> let n = next () = "1" in let ip = str_of_native (next ()) in VReal (n, ip, str_of_native (next ()))
+    | "v1" -> VRef (vref_of "1")
+    | "v2" -> VRef (vref_of "2")
+    | s -> raise (Bad ("value " ^ s)) in
+  let value () = value_of (next ()) in
+  (* nval: ni <z> | n1 <id> | n2 <mod> <id> *)
+  let nval () = match next () with
+    | "ni" -> NInt (num ())
+    | "n1" -> NRef (vref_of "1")
+    | "n2" -> NRef (vref_of "2")
+    | s -> raise (Bad ("nval " ^ s)) in
+  let endpoint_lo () = match next () with "m" -> EMin | "M" -> EMax | s -> EVal (value_of s) in
   let rec constr_of tag =
     match tag with
-    | "v" -> CVal (num ())
+    | "v" -> CVal (value ())
+    | "y" -> CType (None, str_of_native (next ()))
+    | "Y" -> let m = str_of_native (next ()) in CType (Some m, str_of_native (next ()))
     | "r" -> let lo = endpoint_lo () in let hi = endpoint_lo () in CRange (lo, hi)
     | "e" -> CExt
     | "z" -> CSize (constr ())
@@ -64,12 +91,12 @@ let read_module (args : string list) : module_ast =
         let m = (match next () with "I" -> TMImplicit | "E" -> TMExplicit | _ -> TMDefault) in
         Some { t_class = cl; t_num = n; t_mode = m }
     | s -> raise (Bad ("tag " ^ s)) in
-  let nn () = let id = str_of_native (next ()) in let v = num () in (id, v) in
+  let nn () = let id = str_of_native (next ()) in let v = nval () in (id, v) in
   let eitem () =
     match next () with
     | "E" -> EExt
     | "J" -> EItem (str_of_native (next ()), None)
-    | "I" -> let id = str_of_native (next ()) in let v = num () in EItem (id, Some v)
+    | "I" -> let id = str_of_native (next ()) in let v = nval () in EItem (id, Some v)
     | s -> raise (Bad ("eitem " ^ s)) in
   let rec texpr () =
     (match next () with "X" -> () | s -> raise (Bad ("texpr " ^ s)));
@@ -81,6 +108,7 @@ let read_module (args : string list) : module_ast =
     | "To" -> prim POctetString
     | "Ta" -> prim PIA5String
     | "Tu" -> prim PUTF8String
+    | "TR" -> prim PReal
     | "Ti" -> let n = nat () in let l = times n nn in prim (PInteger l)
     | "Tbs" -> let n = nat () in let l = times n nn in prim (PBitString l)
     | "Te" -> let n = nat () in let l = times n eitem in prim (PEnumerated l)
@@ -98,15 +126,15 @@ let read_module (args : string list) : module_ast =
     | s -> raise (Bad ("type " ^ s))
   and member () =
     match next () with
-    | "E" -> MExt
+    | "E" -> MExt None
+    | "Ex" -> MExt (Some (nval ()))
     | "C" ->
         let id = str_of_native (next ()) in
         let t = texpr () in
         let mk = (match next () with
           | "-" -> MNone
           | "O" -> MOptional
-          | "Di" -> MDefault (DInt (num ()))
-          | "Db" -> MDefault (DBool (next () = "1"))
+          | "D" -> MDefault (value ())
           | s -> raise (Bad ("marker " ^ s))) in
         MComp (id, t, mk)
     | s -> raise (Bad ("member " ^ s)) in
@@ -115,7 +143,11 @@ let read_module (args : string list) : module_ast =
   let td = (match next () with "E" -> TDExplicit | "I" -> TDImplicit | "A" -> TDAutomatic | _ -> TDNone) in
   let ei = next () = "1" in
   let n = nat () in
-  let assigns = times n (fun () -> let nm = str_of_native (next ()) in let t = texpr () in (nm, t)) in
+  let assigns = times n (fun () ->
+    match next () with
+    | "T" -> let nm = str_of_native (next ()) in let t = texpr () in ATyp (nm, t)
+    | "W" -> let nm = str_of_native (next ()) in let t = texpr () in let v = value () in AVal (nm, t, v)
+    | s -> raise (Bad ("assign " ^ s))) in
   if !toks <> [] then raise (Bad "trailing input");
   { m_name = name; m_tags = td; m_extimpl = ei; m_assigns = assigns }
 
